@@ -220,8 +220,38 @@ func c04Run(r *mc.Run) {
 	r.Rule = "the attacker BFS and tree enumeration of C01 judged under 4 configurations (three stores + skip-signature) with the trust-indicator invariants: flag on Response => the returned Response equals field-for-field one the IdP signed; flag on assertion => that assertion carries its own honoured signature; unsigned root => every returned assertion flagged; skip => all flags false; summary flag = Response flag; plus the flag checks of C02's and C10's full products. non-trivial = accepted state; distinct = distinct (input, configuration)"
 	r.Assume("RSA/ECDSA unforgeable")
 	c04Logout(r)
+	c04Enclosed(r)
 	attExplore(r, "C04")
 	treeExplore(r, "C04")
+}
+
+// c04Enclosed walks C02's product for the kind "Response genuinely signed, enclosed assertion
+// carrying its own signature in every signer state": the assertion flag must not be set
+// unless the assertion's own signature is honoured.
+func c04Enclosed(r *mc.Run) {
+	var cases []c02Case
+	for s := range c02Signers {
+		for st := range c02Stores {
+			for _, ck := range []int{0, 6, 10} {
+				for _, d := range []bool{false, true} {
+					cases = append(cases, c02Case{Kind: "response-good+assertion-state", Signer: s, SName: c02Signers[s].Name,
+						Conf: world.SPConf{Store: c02Stores[st], ClockNs: int64(c02Clocks[ck].Off)}, Clock: c02Clocks[ck].Name, Deflate: d})
+				}
+			}
+		}
+	}
+	r.Par(len(cases), func(i int) {
+		keys, detail := c02Exec(cases[i])
+		r.Eval(1)
+		r.State(1)
+		r.Transition(1)
+		r.Bucket("enclosed-assertion")
+		for _, k := range keys {
+			if strings.Contains(k, "flag") {
+				r.Violation("C04/enclosed/"+strings.TrimPrefix(k, "C02/"), detail, cases[i])
+			}
+		}
+	})
 }
 
 // c04Logout re-walks C10's full product and reports its trust-indicator findings under C04.
@@ -268,6 +298,15 @@ func c04Replay(raw json.RawMessage) ([]string, string) {
 	json.Unmarshal(raw, &probe)
 	if probe.Input != "" {
 		return attReplay("C04")(raw)
+	}
+	var c2 c02Case
+	if json.Unmarshal(raw, &c2) == nil && c2.Kind == "response-good+assertion-state" {
+		keys, detail := c02Exec(c2)
+		var out []string
+		for _, k := range keys {
+			out = append(out, "C04/enclosed/"+strings.TrimPrefix(k, "C02/"))
+		}
+		return out, detail
 	}
 	var c c10Case
 	if err := json.Unmarshal(raw, &c); err != nil {
